@@ -68,3 +68,200 @@ Definition run_ok (W H tol : Qc) (max_iter : nat) (cs : list (option vec)) (fx :
 Definition select_ok (ktol : Qc) (kcs : list (Qc * Qc)) (chosen : Qc) : bool :=
   list_eqb (fun a b => Qcleb (Qcabs (a - b)) ktol) (map fst kcs) kappas &&
   Qceqb (select None 0 kcs) chosen.
+
+(* ---------------------------------------------------------------------------------------
+   HISTORIES: the model (Force/FRSeq.v) folded over what the harness did to ONE object graph
+   - relocation calls on the same Die / Netlist objects, create_squares / Allocation, centres
+   written by the caller, deep copies - and compared with what was observed after every step.
+   The model state is carried from step to step: the trace of every call is replayed FROM THE
+   VALUES THE MODEL HAS REACHED.  At every HCheck the model state is compared with the observed
+   one (centres within tol, the rest exactly) and then takes the observed centres - the binary64
+   roundings of its own - by SetCentre operations, so that the rationals stay small.
+   Payload of a module: the numbers it carries besides its centre (area, per-region areas,
+   flags, aspect ratio, every rectangle: centre, shape, flags, location), compared exactly.
+   Nets: (module indices, weight).
+   --------------------------------------------------------------------------------------- *)
+From FrameModel Require Import Force.FRSeq.
+
+Definition pl : Type := list Qc.
+Definition cnets : Type := list (list nat * Qc).
+Definition cnl : Type := netlist pl cnets.
+
+Fixpoint cmods (cs : list (option vec)) (fx : list bool) (ps : list pl) : list (module pl) :=
+  match cs, fx, ps with
+  | c :: cs', f :: fx', p :: ps' => mkMod c f p :: cmods cs' fx' ps'
+  | _, _, _ => []
+  end.
+
+Definition nets_eqb : cnets -> cnets -> bool := list_eqb (pair_eqb (list_eqb Nat.eqb) Qceqb).
+
+(* the model state against an observed state: centres within tol, everything else exactly *)
+Definition state_ok (tol : Qc) (nl : cnl) (cs : list (option vec)) (fx : list bool) (ps : list pl) (ns : cnets)
+  : bool :=
+  list_eqb (opt_eqb (vclose tol)) (map centre (modules nl)) cs &&
+  list_eqb Bool.eqb (map is_fixed (modules nl)) fx &&
+  list_eqb (list_eqb Qceqb) (map payload (modules nl)) ps &&
+  nets_eqb (nets nl) ns.
+
+(* one recorded run of fruchterman_reingold_layout, started from the model state nl *)
+Definition trace_ok_nl (W H tol : Qc) (max_iter : nat) (nl : cnl) (recs : list irec) (final : list vec) : bool :=
+  let fx := map is_fixed (modules nl) in
+  let first := match recs with r :: _ => r_pos r | [] => final end in
+  Nat.eqb (length recs) max_iter &&
+  list_eqb (vclose tol) (map (recentre W H) (modules nl)) first &&
+  temps_ok tol (t_init W H) (dt_of W H max_iter) recs &&
+  steps_ok W H tol fx recs final &&
+  list_eqb (vclose tol) (final_pos (replay_force recs) W H max_iter nl) final.
+
+(* one trial of force_algorithm: spring constant, recorded cost, recorded run *)
+Record trial_rec : Type := mkTrial { tr_kappa : Qc; tr_cost : Qc; tr_recs : list irec; tr_final : list vec }.
+
+Inductive hop : Type :=
+| HLayout (max_iter : nat) (recs : list irec) (final : list vec)
+| HAlgo (max_iter : nat) (trials : list trial_rec) (chosen : Qc) (recs : list irec) (final : list vec)
+| HSetCentre (v : nat) (c : vec)
+| HSetPayload (v : nat) (a : pl)
+| HCopy
+| HCheck (cs : list (option vec)) (fx : list bool) (ps : list pl) (ns : cnets).
+
+(* the force law of force_algorithm played back: the recorded run of the trial of that constant *)
+Definition trial_force (trials : list trial_rec) (k : Qc) : law :=
+  match find (fun tr => Qceqb (tr_kappa tr) k) trials with
+  | Some tr => replay_force (tr_recs tr)
+  | None => replay_force []
+  end.
+
+(* exact equality of model values, cheaply: a Qc is a REDUCED fraction, so two of them are equal iff
+   numerators and denominators are (no cross-multiplication); comparisons stop at the first difference *)
+Definition qc_same (a b : Qc) : bool :=
+  if Z.eqb (Qnum (this a)) (Qnum (this b)) then Pos.eqb (Qden (this a)) (Qden (this b)) else false.
+
+Lemma qc_same_spec (a b : Qc) : qc_same a b = true <-> a = b.
+Proof.
+  unfold qc_same. split.
+  - destruct (Z.eqb_spec (Qnum (this a)) (Qnum (this b))) as [En|]; [|discriminate].
+    intros Ed. apply Pos.eqb_eq in Ed. apply Qc_decomp.
+    destruct (this a) as [na da], (this b) as [nb db]; cbn in *. subst. reflexivity.
+  - intros ->. rewrite Z.eqb_refl. apply Pos.eqb_refl.
+Qed.
+
+Definition vec_same (a b : vec) : bool := if qc_same (fst a) (fst b) then qc_same (snd a) (snd b) else false.
+Fixpoint list_same {X} (f : X -> X -> bool) (a b : list X) : bool :=
+  match a, b with
+  | [], [] => true
+  | x :: a', y :: b' => if f x y then list_same f a' b' else false
+  | _, _ => false
+  end.
+Definition centres_eqb (a b : cnl) : bool :=
+  list_same (opt_eqb vec_same) (map centre (modules a)) (map centre (modules b)).
+
+(* the model layouts of the trials, each with the cost recorded for it *)
+Definition trial_table (W H : Qc) (max_iter : nat) (nl : cnl) (trials : list trial_rec) : list (cnl * Qc) :=
+  map (fun tr => (fr_layout (replay_force (tr_recs tr)) W H max_iter nl, tr_cost tr)) trials.
+
+(* the cost function played back: a laid-out netlist costs what was recorded for the (first) trial
+   whose model layout it is *)
+Definition trial_cost (table : list (cnl * Qc)) (nl' : cnl) : Qc :=
+  match find (fun e => centres_eqb (fst e) nl') table with Some e => snd e | None => 0 end.
+
+Fixpoint resync_from (v : nat) (cs : list (option vec)) : list (op pl cnets) :=
+  match cs with
+  | [] => []
+  | Some c :: r => SetCentre v c :: resync_from (S v) r
+  | None :: r => resync_from (S v) r
+  end.
+
+(* the operations of the model that a step of the harness stands for ([table]: trial_table of an HAlgo step) *)
+Definition model_of (table : list (cnl * Qc)) (h : hop) : list (op pl cnets) :=
+  match h with
+  | HLayout mi recs _ => [Layout (replay_force recs) mi]
+  | HAlgo mi trials _ _ _ => [Algo (trial_force trials) (trial_cost table) (map tr_kappa trials) mi]
+  | HSetCentre v c => [SetCentre v c]
+  | HSetPayload v a => [SetPayload v a]
+  | HCopy => [Copy]
+  | HCheck cs _ _ _ => resync_from 0 cs
+  end.
+
+Definition table_of (W H : Qc) (nl : cnl) (h : hop) : list (cnl * Qc) :=
+  match h with HAlgo mi trials _ _ _ => trial_table W H mi nl trials | _ => [] end.
+
+Fixpoint allb {X} (f : X -> bool) (l : list X) : bool :=
+  match l with [] => true | x :: r => if f x then allb f r else false end.
+
+(* a recorded run without the end-to-end part (the trials: their model layouts are in the table) *)
+Definition trace_steps_ok (W H tol : Qc) (max_iter : nat) (nl : cnl) (recs : list irec) (final : list vec) : bool :=
+  let fx := map is_fixed (modules nl) in
+  let first := match recs with r :: _ => r_pos r | [] => final end in
+  Nat.eqb (length recs) max_iter &&
+  list_eqb (vclose tol) (map (recentre W H) (modules nl)) first &&
+  temps_ok tol (t_init W H) (dt_of W H max_iter) recs &&
+  steps_ok W H tol fx recs final.
+
+Definition layout_is (W H tol : Qc) (l : cnl) (final : list vec) : bool :=
+  list_eqb (opt_eqb (vclose tol)) (map centre (modules l))
+           (map (fun p => Some (fst p + W * half, snd p + H * half)) final).
+
+Fixpoint trials_ok (W H tol : Qc) (max_iter : nat) (nl : cnl) (trials : list trial_rec) (table : list (cnl * Qc))
+  : bool :=
+  match trials, table with
+  | [], [] => true
+  | tr :: r, e :: t =>
+      if trace_steps_ok W H tol max_iter nl (tr_recs tr) (tr_final tr) && layout_is W H tol (fst e) (tr_final tr)
+      then trials_ok W H tol max_iter nl r t else false
+  | _, _ => false
+  end.
+
+Definition lookup_layout (trials : list trial_rec) (table : list (cnl * Qc)) (k : Qc) : option cnl :=
+  match find (fun te => Qceqb (tr_kappa (fst te)) k) (combine trials table) with
+  | Some te => Some (fst (snd te))
+  | None => None
+  end.
+
+(* what is checked at a step: nl the model state before it, nl' the model state after it *)
+Definition hop_ok (W H tol ktol : Qc) (table : list (cnl * Qc)) (nl nl' : cnl) (h : hop) : bool :=
+  match h with
+  | HLayout mi recs final => trace_ok_nl W H tol mi nl recs final
+  | HAlgo mi trials chosen recs final =>
+      (* the constants tried are 0.4 .. 1.5 (as floats); every trial run is, step by step and end to end,
+         a run of the model from nl *)
+      list_eqb (fun a b => Qcleb (Qcabs (a - b)) ktol) (map tr_kappa trials) kappas &&
+      trials_ok W H tol mi nl trials table &&
+      (* the loop over the recorded costs selects the constant of the final run ... *)
+      Qceqb (select None 0 (map (fun tr => (tr_kappa tr, tr_cost tr)) trials)) chosen &&
+      (* ... and the model's force_algorithm (nl') is the model layout of that constant *)
+      match lookup_layout trials table chosen with Some l => centres_eqb nl' l | None => false end &&
+      (* the final run is a run of the model from nl as well *)
+      trace_ok_nl W H tol mi nl recs final
+  | HCheck cs fx ps ns => state_ok tol nl cs fx ps ns
+  | HSetCentre _ _ | HSetPayload _ _ | HCopy => true
+  end.
+
+Fixpoint hist_ok (W H tol ktol : Qc) (nl : cnl) (hs : list hop) : bool :=
+  match hs with
+  | [] => true
+  | h :: r =>
+      let table := table_of W H nl h in
+      let nl' := run_ops W H (model_of table h) nl in
+      if hop_ok W H tol ktol table nl nl' h then hist_ok W H tol ktol nl' r else false
+  end.
+
+(* the states hist_ok goes through are the states of the model's history *)
+Fixpoint model_ops (W H : Qc) (nl : cnl) (hs : list hop) : list (op pl cnets) :=
+  match hs with
+  | [] => []
+  | h :: r => model_of (table_of W H nl h) h ++ model_ops W H (run_ops W H (model_of (table_of W H nl h) h) nl) r
+  end.
+
+Lemma hist_ok_final_state W H tol ktol : forall hs nl cs fx ps ns,
+  hist_ok W H tol ktol nl (hs ++ [HCheck cs fx ps ns]) = true ->
+  state_ok tol (run_ops W H (model_ops W H nl hs) nl) cs fx ps ns = true.
+Proof.
+  induction hs as [|h r IH]; intros nl cs fx ps ns Hok.
+  - cbn [app hist_ok hop_ok] in Hok. cbn [model_ops run_ops fold_left].
+    destruct (state_ok tol nl cs fx ps ns); [reflexivity|discriminate].
+  - cbn [app hist_ok] in Hok.
+    destruct (hop_ok W H tol ktol (table_of W H nl h) nl (run_ops W H (model_of (table_of W H nl h) h) nl) h);
+      [|discriminate].
+    cbn [model_ops]. unfold run_ops at 1. rewrite fold_left_app.
+    apply IH. exact Hok.
+Qed.
